@@ -6,7 +6,7 @@ import ast
 from .. import AnalysisError, PKG, flow
 from ..ho import HO
 from ..index import index, in_pkg, enclosing_func
-from ..loader import parent, dotted
+from ..loader import parent, dotted, fq_dotted
 from ..report import Ctx
 
 EXPLANATION = (
@@ -41,7 +41,22 @@ EXCEPTIONS = {
 
 SORT_KEY_FUNCS = {"get_vehicles", "get_requests", "get_stations", "get_bases", "iterate_vals", "iterate_items", "iterate_sim_coll"}
 SEEDERS = {"random.seed", "numpy.random.seed", "np.random.seed"}
-RANDOM_PREFIX = ("random.", "numpy.random.", "np.random.")
+RANDOM_PREFIX = ("random.", "numpy.random.", "np.random.", "secrets.")
+WALL_CLOCK = {"time.time", "time.time_ns", "time.perf_counter", "time.monotonic", "datetime.now", "datetime.datetime.now", "datetime.datetime.utcnow",
+              "datetime.datetime.today", "datetime.date.today", "os.urandom"}
+
+
+def hidden_input_sites(repo, funcs):
+    """(function, call node, dotted target) for every call in `funcs` that reads a process-global generator or the
+    wall clock, resolved through each module's import table."""
+    out = []
+    for fn in funcs:
+        for node in ast.walk(fn.node):
+            if isinstance(node, ast.Call) and enclosing_func(node) is fn:
+                d = fq_dotted(fn.module, node.func) or ""
+                if (d.startswith(RANDOM_PREFIX) and d not in SEEDERS) or d in WALL_CLOCK:
+                    out.append((fn, node, d))
+    return out
 
 
 def run(ctx: Ctx):
@@ -145,7 +160,7 @@ def randomness(ctx: Ctx):
             continue
         for n in ast.walk(m.tree):
             if isinstance(n, ast.Call):
-                d = dotted(n.func) or ""
+                d = fq_dotted(m, n.func) or ""
                 if d in SEEDERS:
                     f = enclosing_func(n)
                     if f is not None:
@@ -163,7 +178,7 @@ def randomness(ctx: Ctx):
             top = top.outer
         self_seeded = False
         for nn in ast.walk(top.node):
-            if isinstance(nn, ast.Call) and (dotted(nn.func) or "") in SEEDERS and nn.lineno < n.lineno:
+            if isinstance(nn, ast.Call) and (fq_dotted(m, nn.func) or "") in SEEDERS and nn.lineno < n.lineno:
                 self_seeded = True
         inst = f"{f.qualname}: {d}"
         if self_seeded:
@@ -192,7 +207,7 @@ def uuids(ctx: Ctx):
         if m.relpath.startswith(PKG + "/resources"):
             continue
         for node in ast.walk(m.tree):
-            if isinstance(node, ast.Call) and (dotted(node.func) or "") in ("uuid4", "uuid.uuid4"):
+            if isinstance(node, ast.Call) and (fq_dotted(m, node.func) or "") in ("uuid4", "uuid.uuid4"):
                 n += 1
                 p = parent(node)
                 f = enclosing_func(node)
@@ -213,10 +228,10 @@ def uuids(ctx: Ctx):
             continue
         for node in ast.walk(fn.node):
             if isinstance(node, ast.Call):
-                d = dotted(node.func) or ""
+                d = fq_dotted(fn.module, node.func) or ""
                 if d in ("id", "hash") and enclosing_func(node) is fn and fn.name not in ("__hash__", "__eq__"):
                     ctx.violation("D4", "HO.process-value", f"{fn.qualname}: {d}(...)", fn, node, why=f"{d}() differs between processes / hash seeds", construct=f"{fn.qualname}:{d}")
-                if d in ("time.time", "datetime.now", "datetime.datetime.now", "time.perf_counter") and not fn.relpath.startswith(PKG + "/runner"):
+                if d in WALL_CLOCK and not fn.relpath.startswith(PKG + "/runner"):
                     ctx.violation("D4", "HO.process-value", f"{fn.qualname}: {d}()", fn, node, why="wall-clock time in simulation code", construct=f"{fn.qualname}:{d}")
 
 
@@ -238,7 +253,8 @@ def selftest():
         V("ring-in-hash-order", H3, "sorted(h3.k_ring(", "list(h3.k_ring(", rule="HO"),
         V("densest-cell-max", DIO, "    def _get_reposition_location() -> Optional[EntityPosition]:", "    def _get_reposition_location() -> Optional[EntityPosition]:\n        _best = max(sim.r_search.items(), key=lambda kv: len(kv[1]))", rule="HO"),
         V("unseeded-random-in-generator", DISP, "        base_charging_range_km_threshold = (", "        import random\n        _jitter = random.random()\n        base_charging_range_km_threshold = (", rule="HO.random"),
-        V("uuid-as-key", "nrel/hive/state/vehicle_state/out_of_service.py", "instance_id=uuid4()", "instance_id=uuid4(), vehicle_id=str(uuid4())", rule="HO.uuid"),
+        V("uuid-as-key", "nrel/hive/state/vehicle_state/idle.py", "        return Idle(vehicle_id=vehicle_id, instance_id=uuid4())", "        return Idle(vehicle_id=str(uuid4()), instance_id=uuid4())", rule="HO.uuid"),
+        V("aliased-draw", SSO, "        sorted_other_vehicles = tuple(sorted(other_vehicles, key=lambda v: v.id))", "        from random import shuffle as _sh\n        sorted_other_vehicles = tuple(sorted(other_vehicles, key=lambda v: v.id))\n        _sh(list(sorted_other_vehicles))", rule="HO.random"),
         V("twin-sorted-identity-key", STEP, "        for vid in sorted(i_stack.keys()):", "        for vid in sorted(i_stack.keys(), key=lambda k: k):", kind="twin"),
         V("twin-keyed-loop", "nrel/hive/model/vehicle/vehicle.py", "        energy_expended = {k: self.energy_expended[k] + delta_energy[k] for k in self.energy.keys()}", "        energy_expended = {}\n        for k in self.energy.keys():\n            energy_expended[k] = self.energy_expended[k] + delta_energy[k]", kind="twin"),
     ]
